@@ -163,6 +163,7 @@ def opPartition (j : Json) : M Json := do
 
 def readErrName : ReadErr → String
   | .badMagic => "badMagic" | .badVersion => "badVersion" | .truncated => "truncated"
+  | .noFile => "noFile"
 
 /-- op encode: `write_events(events, file, start, stop, remove_duplicates)` -/
 def opEncode (j : Json) : M Json := do
@@ -176,6 +177,9 @@ def opEncode (j : Json) : M Json := do
     | .stopped n => Json.mkObj [("kind", "stopped"), ("n", jNat n)]
     | .empty => Json.mkObj [("kind", "empty"), ("n", jNat 0)]
     | .dupError i => Json.mkObj [("kind", "dup_error"), ("n", jNat i)]
+    -- OverflowError of `to_bytes(stop - start)`: harness/impl_bytes.py reports every
+    -- exception that is neither StopIteration nor ValueError as kind 'other_error'
+    | .overflow => Json.mkObj [("kind", "other_error"), ("n", jNat 0)]
   pure (kind.setObjVal! "bytes" (match bytes with | some b => Json.str (toHex b) | none => Json.null))
 
 /-- op decode: both readers on a byte string -/
@@ -211,7 +215,7 @@ def opKernelB2B (j : Json) : M Json := do
     if entry == "openmp" then
       (ompParts rows chunk).foldl (fun w part => kernelFile alpha b1 b2 lam nCues part w es) w
     else kernelFile alpha b1 b2 lam nCues rows w es
-  let (w, e) := learnChunks Generated.kernelMagic Generated.kernelVersion learnFile chunks w0
+  let (w, e) := learnChunksB2B Generated.kernelMagic Generated.kernelVersion learnFile chunks w0
   let cells := (List.range w.size).filterMap (fun k =>
     let v := w.getD k 0
     if v.v == 0 then none else some (Json.arr #[jNat k, Json.str v.toStr]))
